@@ -424,6 +424,18 @@ func execC13b(s *c13bScenario, c *ev.Ctx) {
 		// every concrete label value satisfies the requirement on its key
 		for k, v := range api.Labels {
 			if apiReqs.Has(k) && !apiReqs.Get(k).Has(v) {
+				// a bounded complement whose every canonical integer is excluded still admits non-canonical spellings
+				// ("02"); Any() has no canonical value to offer there (same exemption as in C13a)
+				var prims []ref.Prim
+				for _, r := range api.Spec.Requirements {
+					if r.Key == k {
+						prims = append(prims, ref.Prim{Op: string(r.Operator), Values: r.Values})
+					}
+				}
+				if !hasCanonicalInt(ref.FromPrims(prims)) {
+					c.Class("no_canonical_integer_value")
+					continue
+				}
 				c.Violate("e2e:label-outside-requirement", "NodeClaim %s label %s=%q is not admitted by its own requirement %s", api.Name, k, v, apiReqs.Get(k))
 			}
 		}
